@@ -1,4 +1,7 @@
 mod common;
+mod conv_common;
+mod conv_cie;
+mod c02;
 mod c03;
 mod c05;
 mod c06;
@@ -9,6 +12,7 @@ fn main() {
     let (prop, tier, seed, dir) = (a[1].as_str(), a[2].as_str(), a[3].parse::<u64>().unwrap_or(0), a[4].as_str());
     common::quiet_panics();
     match prop {
+        "C02" => c02::run(tier, seed, dir),
         "C03" => c03::run(tier, seed, dir),
         "C05" => c05::run(tier, seed, dir),
         "C06" => c06::run(tier, seed, dir),
